@@ -61,6 +61,7 @@ struct Hist {
     bool opCopyOut();
     bool opReadModifyWrite();
     bool opSelfFrame();
+    bool opSelfParam();
 
     // helpers
     Frame buildFrame(int deviation, std::string* devName, SFrame* intended, int forceSub = -1);
